@@ -16,6 +16,8 @@ VARIABLE i
 Doc(ctx) == IF ctx = "pub-string" THEN {"MalformedPointError"}
             ELSE IF ctx = "ecdh-bytes" THEN {"MalformedPointError"}
             ELSE IF ctx = "pub-der" THEN {"MalformedPointError", "UnexpectedDER"}
+            ELSE IF ctx = "pub-point" THEN {"MalformedPointError"}
+            ELSE IF ctx = "ecdh-curves" THEN {"InvalidCurveError"}
             ELSE IF ctx = "verify" THEN {"BadSignatureError"}
             ELSE {}
 VD == {"accept", "reject"}
